@@ -988,6 +988,30 @@ func (e *Engine) boxIface(st *State, v Value, from types.Type) *IfaceV {
 	}
 	tag := e.typeTag(name)
 	id := Var(e.fresher.name("iface.id"), SInt)
+	// boxing is deterministic: equal values of one type box to equal interface values
+	{
+		var leaves []*Term
+		ok := true
+		var flat func(v Value)
+		flat = func(v Value) {
+			switch x := v.(type) {
+			case *Term:
+				leaves = append(leaves, x)
+			case *StructV:
+				for _, n := range x.Names {
+					flat(x.F[n])
+				}
+			case *PtrV:
+				leaves = append(leaves, x.Nil, Int(int64(x.Obj)))
+			default:
+				ok = false
+			}
+		}
+		flat(v)
+		if ok && len(leaves) > 0 {
+			id = App("box:"+name, SInt, leaves...)
+		}
+	}
 	if p, ok := v.(*PtrV); ok {
 		// a nil pointer in an interface is a non-nil interface
 		_ = p
